@@ -1,6 +1,7 @@
 package main
 
 import (
+	"strconv"
 	"bytes"
 	"encoding/binary"
 	"fmt"
@@ -13,8 +14,18 @@ func init() { props["C13"] = propFn{run: runC13, replay: func(c *Ctx, f Failure)
 
 // ---- independent compound-file reader (written from MS-CFB; shares no code with excelize or mscfb) ----
 type cfbDoc struct {
-	streams map[string][]byte
+	streams  map[string][]byte
 	problems []string
+	// the allocation tables as 32-bit words (signed: -1 free, -2 end of chain, -3 FAT sector, -4 DIFAT sector)
+	fatWords, miniFATWords, hdrSlots []int32
+	difSectors                       [][]int32
+	dirStart, miniFATStart           int32
+	nMiniFAT                         int
+	rootStart                        int32
+	rootSize                         uint64
+	entryNames                       []string // stream entries in directory order
+	entryStart                       []int32
+	entrySize                        []uint64
 }
 
 func cfbRead(b []byte) *cfbDoc {
@@ -51,9 +62,11 @@ func cfbRead(b []byte) *cfbDoc {
 		}
 		return b[512*(int(i)+1) : 512*(int(i)+2)]
 	}
+	d.dirStart, d.miniFATStart, d.nMiniFAT = int32(dirStart), int32(miniFATStart), nMiniFAT
 	// DIFAT
 	var fatSectors []uint32
 	for i := 0; i < 109; i++ {
+		d.hdrSlots = append(d.hdrSlots, int32(u32(0x4C+4*i)))
 		if v := u32(0x4C + 4*i); v != free {
 			fatSectors = append(fatSectors, v)
 		}
@@ -67,6 +80,11 @@ func cfbRead(b []byte) *cfbDoc {
 			break
 		}
 		seenDif++
+		var words []int32
+		for i := 0; i < 128; i++ {
+			words = append(words, int32(binary.LittleEndian.Uint32(s[4*i:])))
+		}
+		d.difSectors = append(d.difSectors, words)
 		for i := 0; i < 127; i++ {
 			if v := binary.LittleEndian.Uint32(s[4*i:]); v != free {
 				fatSectors = append(fatSectors, v)
@@ -91,6 +109,9 @@ func cfbRead(b []byte) *cfbDoc {
 		for i := 0; i < 128; i++ {
 			fat = append(fat, binary.LittleEndian.Uint32(s[4*i:]))
 		}
+	}
+	for _, w := range fat {
+		d.fatWords = append(d.fatWords, int32(w))
 	}
 	if len(fat) < nSectors {
 		bad("FAT has %d entries for %d sectors", len(fat), nSectors)
@@ -129,6 +150,7 @@ func cfbRead(b []byte) *cfbDoc {
 		}
 		for i := 0; i+4 <= len(mf); i += 4 {
 			miniFAT = append(miniFAT, binary.LittleEndian.Uint32(mf[i:]))
+			d.miniFATWords = append(d.miniFATWords, int32(binary.LittleEndian.Uint32(mf[i:])))
 		}
 	}
 	type entry struct {
@@ -157,6 +179,12 @@ func cfbRead(b []byte) *cfbDoc {
 	if len(entries) == 0 || entries[0].typ != 5 {
 		bad("first directory entry is not the root storage")
 		return d
+	}
+	d.rootStart, d.rootSize = int32(entries[0].start), entries[0].size
+	for _, e := range entries[1:] {
+		if e.typ == 2 {
+			d.entryNames, d.entryStart, d.entrySize = append(d.entryNames, e.name), append(d.entryStart, int32(e.start)), append(d.entrySize, e.size)
+		}
 	}
 	var mini []byte
 	if entries[0].size > 0 {
@@ -230,6 +258,10 @@ func (c *Ctx) c13Container(sizes [][2]int) {
 		loc []int
 	}
 	var ps []pend
+	var treqs []string
+	var tdocs []*cfbDoc
+	var tsizes [][2]int
+	defer func() { c.c13Tables(treqs, tdocs, tsizes) }()
 	for _, s := range sizes {
 		desc := map[string]interface{}{"EncryptionInfo_size": s[0], "EncryptedPackage_size": s[1]}
 		c.guard("C13_no_panic", desc, func() {
@@ -248,6 +280,11 @@ func (c *Ctx) c13Container(sizes [][2]int) {
 			}
 			loc := excelize.VerifCfbLocate([]string{"EncryptionInfo", "EncryptedPackage"}, []int{s[0], s[1]})
 			ps = append(ps, pend{s, loc})
+			if len(doc.problems) == 0 && len(doc.entrySize) == 2 {
+				treqs = append(treqs, fmt.Sprintf("c13.tables 3 %d %d", doc.entrySize[0], doc.entrySize[1]))
+				tdocs = append(tdocs, doc)
+				tsizes = append(tsizes, s)
+			}
 			// stream order after prepare(): the model takes the sizes as a multiset
 			reqs = append(reqs, fmt.Sprintf("c13.locate 3 %d %d", s[0], s[1]))
 		})
@@ -492,4 +529,79 @@ func runC13(c *Ctx) {
 	c.c13Crypt(ns)
 	c.c13Workbook()
 	c.Sample(map[string]interface{}{"container sizes": len(sizes), "examples": sizes[:3], "payload sizes": len(ns)})
+}
+
+func i32s(l []int32) string {
+	var sb strings.Builder
+	for i, v := range l {
+		if i > 0 {
+			sb.WriteByte(',')
+		}
+		sb.WriteString(strconv.Itoa(int(v)))
+	}
+	return sb.String()
+}
+
+// the allocation tables of the written container, word for word, against the extracted table model
+// (C13/Chains.v: fat_table, minifat_table, msat_header, msat_sector), and the start sectors stored in the header,
+// the root entry and the stream entries against the chain starts of the model
+func (c *Ctx) c13Tables(reqs []string, docs []*cfbDoc, sizes [][2]int) {
+	if c.Model == nil || c.Model.path == "" || len(reqs) == 0 {
+		return
+	}
+	outs := c.Model.Call(reqs)
+	for i, o := range outs {
+		c.R.Traces++
+		d := docs[i]
+		desc := map[string]interface{}{"EncryptionInfo_size": sizes[i][0], "EncryptedPackage_size": sizes[i][1]}
+		kv := map[string]string{}
+		for _, f := range strings.Fields(o) {
+			if p := strings.SplitN(f, "=", 2); len(p) == 2 {
+				kv[p[0]] = p[1]
+			}
+		}
+		if _, ok := kv["fat"]; !ok {
+			c.Fail("model-impl", "c13.tables", desc, "model: "+o, "")
+			continue
+		}
+		diff := func(what, model, impl string) {
+			if model != impl {
+				c.Fail("model-impl", "c13.tables", desc, what+" differs between the written container and the model: "+firstDiff(impl, model), "")
+			}
+		}
+		diff("FAT", kv["fat"], i32s(d.fatWords))
+		diff("mini FAT", kv["mfat"], i32s(d.miniFATWords))
+		diff("header DIFAT slots", kv["hdr"], i32s(d.hdrSlots))
+		var ds []string
+		for _, w := range d.difSectors {
+			ds = append(ds, i32s(w))
+		}
+		diff("DIFAT sectors", kv["dif"], strings.Join(ds, "|"))
+		st := strings.Split(kv["st"], ",")
+		mst := strings.Split(kv["mst"], ",")
+		if len(st) != 5 || len(mst) != 2 {
+			c.Fail("model-impl", "c13.tables", desc, "model starts: "+kv["st"]+" / "+kv["mst"], "")
+			continue
+		}
+		eq := func(what, model string, impl int32) {
+			if model != strconv.Itoa(int(impl)) {
+				c.Fail("model-impl", "c13.tables", desc, fmt.Sprintf("%s: the container says sector %d, the model's chain starts at %s", what, impl, model), "")
+			}
+		}
+		eq("directory start (header)", st[1], d.dirStart)
+		if d.nMiniFAT > 0 {
+			eq("mini FAT start (header)", st[0], d.miniFATStart)
+		}
+		if d.rootSize > 0 {
+			eq("mini stream container start (root entry)", st[4], d.rootStart)
+		}
+		for k := 0; k < 2; k++ {
+			switch {
+			case d.entrySize[k] >= 4096:
+				eq("start of stream "+d.entryNames[k], st[2+k], d.entryStart[k])
+			case d.entrySize[k] > 0:
+				eq("mini start of stream "+d.entryNames[k], mst[k], d.entryStart[k])
+			}
+		}
+	}
 }
